@@ -120,6 +120,12 @@ Section ExecArgs.
   Notation pk := ExecUnk.pk.
   Notation nst := (ExecUnk.nst T).
 
+  (* the tokens of visible text *)
+  Definition tx (t : tok) : bool := match tk t with KText => true | _ => false end.
+  Definition texts (l : list tok) : list tok := filter tx l.
+  Lemma texts_app a b : texts (a ++ b) = texts a ++ texts b.
+  Proof. apply filter_app. Qed.
+
   Lemma unames_app ms a b : unames ms (a ++ b) = unames ms a ++ unames ms b.
   Proof. apply flat_map_app. Qed.
   Lemma plains_app a b : plains (a ++ b) = plains a ++ plains b.
@@ -168,8 +174,8 @@ Section ExecArgs.
       unknowns st' = fold_left add_unknown (unames (macros st) toks) (unknowns st) /\
       macros st' = macros st /\
       nst (plains ts) = nst (plains toks) /\
-      Forall (fun t => (pk t = true /\ is_action t = false /\ is_lang t = false) \/
-                       (pk t = false /\ txt t = [])) ts.
+      texts ts = texts toks /\
+      Forall (fun t => etok T t \/ (pk t = false /\ txt t = [])) ts.
   Proof.
     induction fuel as [|k IH]; intros toks rout st r Hc H; [discriminate|].
     cbn [exec step] in H. inversion Hc as [E0|t b Ht Hb E0|m o a c l Hm Ho Hcl Hbal Ha Hl E0]; subst.
@@ -180,7 +186,7 @@ Section ExecArgs.
     - inversion Ht as [? He|? Hk Hd Hm|? Hk Hi|? Hk Htx|? Hk Hbr]; subst.
       + (* plain token *)
         rewrite (step_seq_etok T rd Htab) in H by exact He.
-        destruct (IH _ _ _ _ Hb H) as (st' & ts & out & Er & Ep & Eu & Em & En & Ef).
+        destruct (IH _ _ _ _ Hb H) as (st' & ts & out & Er & Ep & Eu & Em & En & Et & Ef).
         exists st', (t :: ts), out. split; [exact Er|].
         split; [cbn [rev] in Ep; rewrite <- app_assoc in Ep; exact Ep|].
         destruct He as [Hp Hkind].
@@ -190,10 +196,11 @@ Section ExecArgs.
           destruct (tk t); try contradiction; repeat split. }
         destruct Hnm as (N1 & N2 & N3 & N4).
         split; [change (t :: b) with ([t] ++ b); rewrite unames_app, N1; exact Eu|].
-        split; [exact Em|]. split.
+        split; [exact Em|]. split; [|split].
         * unfold ExecUnk.plains in *. cbn [filter]. rewrite N2.
           unfold ExecUnk.nst, RpalProofs.nst in *. cbn [flat_map]. rewrite En. reflexivity.
-        * constructor; [left; repeat split; assumption | exact Ef].
+        * unfold texts in *. cbn [filter]. rewrite Et. reflexivity.
+        * constructor; [left; split; assumption | exact Ef].
       + (* undeclared control word *)
         destruct (step_macro T rd (exec T rd k) k st t b None rout Hk Hd Hm)
           as (st1 & Es & Eu1 & Em1).
@@ -201,14 +208,18 @@ Section ExecArgs.
         destruct (skip_space_bcl _ _ Hb) as (pre & Eb & Hpre' & Hpre & Hrest).
         assert (Hcl2 : bcl (macros st1) (ActionT (pos t) :: skip_space b)).
         { rewrite Em1. constructor; [apply u_action; [left|]; reflexivity | exact Hrest]. }
-        destruct (IH _ _ _ _ Hcl2 H) as (st' & ts & out & Er & Ep & Eu & Em & En & Ef).
+        destruct (IH _ _ _ _ Hcl2 H) as (st' & ts & out & Er & Ep & Eu & Em & En & Et & Ef).
         exists st', ts, out. split; [exact Er|]. split; [exact Ep|].
         destruct (skipped_harmless T Hsp _ _ Hpre' Hpre) as [Hn0 Hp0].
         assert (Hun0 : unames (macros st) pre = []).
         { clear - Hpre. induction Hpre as [|x p Hx Hp IHp]; [reflexivity|].
           unfold unames in *. cbn [flat_map]. rewrite IHp, app_nil_r.
           unfold buf_is_space in Hx. destruct (tk x); try discriminate; reflexivity. }
-        split; [|split; [congruence|split; [|exact Ef]]].
+        assert (Htx0 : texts pre = []).
+        { clear - Hpre. induction Hpre as [|x p Hx Hp IHp]; [reflexivity|].
+          unfold texts in *. cbn [filter]. rewrite IHp.
+          unfold buf_is_space in Hx. unfold tx. destruct (tk x); try discriminate; reflexivity. }
+        split; [|split; [congruence|split; [|split; [|exact Ef]]]].
         * rewrite Eu, Em1. change (ActionT (pos t) :: skip_space b)
             with ([ActionT (pos t)] ++ skip_space b).
           change (t :: b) with ([t] ++ b). rewrite !unames_app.
@@ -219,19 +230,25 @@ Section ExecArgs.
           assert (P2 : pk t = false) by (unfold ExecUnk.pk; rewrite Hk; reflexivity).
           rewrite P1, P2. rewrite Eb at 2. rewrite filter_app, nst_app.
           unfold ExecUnk.plains in Hp0. rewrite Hp0. reflexivity.
+        * rewrite Et. unfold texts. cbn [filter].
+          assert (X1 : tx (ActionT (pos t)) = false) by reflexivity.
+          assert (X2 : tx t = false) by (unfold tx; rewrite Hk; reflexivity).
+          rewrite X1, X2. rewrite Eb at 2. rewrite filter_app. unfold texts in Htx0.
+          rewrite Htx0. reflexivity.
       + (* comment *)
         rewrite (step_comment T rd) in H by assumption.
-        destruct (IH _ _ _ _ Hb H) as (st' & ts & out & Er & Ep & Eu & Em & En & Ef).
+        destruct (IH _ _ _ _ Hb H) as (st' & ts & out & Er & Ep & Eu & Em & En & Et & Ef).
         exists st', ts, out. split; [exact Er|]. split; [exact Ep|].
         assert (P2 : pk t = false) by (unfold ExecUnk.pk; rewrite Hk; reflexivity).
         assert (P3 : unames (macros st) [t] = [])
           by (unfold unames; cbn [flat_map]; rewrite Hk; reflexivity).
         change (t :: b) with ([t] ++ b). rewrite unames_app, P3.
-        unfold ExecUnk.plains in *. cbn [app filter]. rewrite P2.
+        assert (X2 : tx t = false) by (unfold tx; rewrite Hk; reflexivity).
+        unfold ExecUnk.plains, texts in *. cbn [app filter]. rewrite P2, X2.
         repeat split; assumption.
       + (* action or void token *)
         rewrite (step_action T rd Htab) in H by assumption.
-        destruct (IH _ _ _ _ Hb H) as (st' & ts & out & Er & Ep & Eu & Em & En & Ef).
+        destruct (IH _ _ _ _ Hb H) as (st' & ts & out & Er & Ep & Eu & Em & En & Et & Ef).
         exists st', (t :: ts), out. split; [exact Er|].
         split; [cbn [rev] in Ep; rewrite <- app_assoc in Ep; exact Ep|].
         assert (P2 : pk t = false)
@@ -239,12 +256,14 @@ Section ExecArgs.
         assert (P3 : unames (macros st) [t] = [])
           by (unfold unames; cbn [flat_map]; destruct Hk as [Hk|Hk]; rewrite Hk; reflexivity).
         change (t :: b) with ([t] ++ b). rewrite unames_app, P3.
-        unfold ExecUnk.plains in *. cbn [app filter]. rewrite P2.
+        assert (X2 : tx t = false)
+          by (unfold tx; destruct Hk as [Hk|Hk]; rewrite Hk; reflexivity).
+        unfold ExecUnk.plains, texts in *. cbn [app filter]. rewrite P2, X2.
         repeat split; try assumption.
         constructor; [right; split; [exact P2 | exact Htx] | exact Ef].
       + (* single brace *)
         rewrite (step_brace T rd) in H by assumption.
-        destruct (IH _ _ _ _ Hb H) as (st' & ts & out & Er & Ep & Eu & Em & En & Ef).
+        destruct (IH _ _ _ _ Hb H) as (st' & ts & out & Er & Ep & Eu & Em & En & Et & Ef).
         exists st', (ActionT (pos t) :: ts), out. split; [exact Er|].
         split; [cbn [rev] in Ep; rewrite <- app_assoc in Ep; exact Ep|].
         assert (P1 : pk (ActionT (pos t)) = false) by reflexivity.
@@ -252,7 +271,9 @@ Section ExecArgs.
         assert (P3 : unames (macros st) [t] = [])
           by (unfold unames; cbn [flat_map]; rewrite Hk; reflexivity).
         change (t :: b) with ([t] ++ b). rewrite unames_app, P3.
-        unfold ExecUnk.plains in *. cbn [app filter]. rewrite P1, P2.
+        assert (X1 : tx (ActionT (pos t)) = false) by reflexivity.
+        assert (X2 : tx t = false) by (unfold tx; rewrite Hk; reflexivity).
+        unfold ExecUnk.plains, texts in *. cbn [app filter]. rewrite P1, P2, X1, X2.
         repeat split; try assumption. constructor; [right; split; reflexivity | exact Ef].
     - (* a pass-through macro with its braced argument *)
       destruct (step_pass (exec T rd k) k st m o a c l None rout Hm Ho Hcl Hbal)
@@ -267,14 +288,15 @@ Section ExecArgs.
         constructor; [apply u_action; [left|]; reflexivity|].
         apply bcl_app; [exact Ha'|].
         constructor; [apply u_action; [left|]; reflexivity | exact Hl]. }
-      destruct (IH _ _ _ _ Hnew H) as (st' & ts & out & Er & Ep & Eu & Em & En & Ef).
+      destruct (IH _ _ _ _ Hnew H) as (st' & ts & out & Er & Ep & Eu & Em & En & Et & Ef).
       exists st', ts, out. split; [exact Er|]. split; [exact Ep|].
       destruct Hm as (Hk & _ & mac & a1 & Hma & _).
       destruct Ho as [Ok_ _]. destruct Hcl as [Ck _].
-      assert (Ua' : unames (macros st) a' = unames (macros st) a /\ plains a' = plains a).
-      { rewrite Ea'. destruct a; [split; reflexivity | split; reflexivity]. }
-      destruct Ua' as [Ua' Pa'].
-      split; [|split; [exact Em|split; [|exact Ef]]].
+      assert (Ua' : unames (macros st) a' = unames (macros st) a /\ plains a' = plains a
+                    /\ texts a' = texts a).
+      { rewrite Ea'. destruct a; repeat split; reflexivity. }
+      destruct Ua' as (Ua' & Pa' & Ta').
+      split; [|split; [exact Em|split; [|split; [|exact Ef]]]].
       + rewrite Eu. f_equal.
         change (ActionT (pos m) :: ActionT (pos x) :: a' ++ ActionT (pos y) :: l)
           with ([ActionT (pos m); ActionT (pos x)] ++ a' ++ [ActionT (pos y)] ++ l).
@@ -299,6 +321,18 @@ Section ExecArgs.
         assert (Q4 : plains [c] = []).
         { unfold ExecUnk.plains, ExecUnk.pk. cbn [filter]. rewrite Ck. reflexivity. }
         rewrite Q1, Q2, Q3, Q4. reflexivity.
+      + rewrite Et.
+        change (ActionT (pos m) :: ActionT (pos x) :: a' ++ ActionT (pos y) :: l)
+          with ([ActionT (pos m); ActionT (pos x)] ++ a' ++ [ActionT (pos y)] ++ l).
+        change (m :: o :: a ++ c :: l) with ([m; o] ++ a ++ [c] ++ l).
+        rewrite !texts_app, Ta'.
+        assert (Q1 : texts [ActionT (pos m); ActionT (pos x)] = []) by reflexivity.
+        assert (Q2 : texts [ActionT (pos y)] = []) by reflexivity.
+        assert (Q3 : texts [m; o] = []).
+        { unfold texts, tx. cbn [filter]. rewrite Hk, Ok_. reflexivity. }
+        assert (Q4 : texts [c] = []).
+        { unfold texts, tx. cbn [filter]. rewrite Ck. reflexivity. }
+        rewrite Q1, Q2, Q3, Q4. reflexivity.
   Qed.
 
   (* the words stay -- also those inside arguments --, the markup vanishes,
@@ -312,18 +346,69 @@ Section ExecArgs.
     macros st' = macros st.
   Proof.
     intros Hnl Hc H.
-    destruct (exec_args fuel toks [] st _ Hc H) as (st2 & ts & o & Er & Ep & Eu & Em & En & Ef).
+    destruct (exec_args fuel toks [] st _ Hc H) as (st2 & ts & o & Er & Ep & Eu & Em & En & Et & Ef).
     inversion Er; subst. cbn [rev app] in Ep.
     split; [|split; assumption].
     assert (HE0 : Forall (RpalProofs.E0) ts).
     { eapply Forall_impl; [|exact Ef]. intros a Ha. unfold RpalProofs.E0. intros HX.
-      destruct Ha as [(A & B & C)|(A & B)]; [destruct HX; congruence | exact B]. }
+      destruct Ha as [[_ A]|(A & B)]; [|exact B].
+      exfalso. unfold is_action, is_lang in HX.
+      destruct (tk a); try contradiction; destruct HX; discriminate. }
     pose proof (rpal_conserves isp Hnl ts o HE0 Ep) as Hcons.
     unfold ExecUnk.nst at 1. rewrite Hcons. rewrite <- En.
     unfold ExecUnk.nst, RpalProofs.nst, ExecUnk.plains. clear - Ef.
     induction Ef as [|t l Ht Hl IH]; [reflexivity|].
-    cbn [flat_map filter]. destruct Ht as [(A & _)|(A & B)]; rewrite A.
-    - cbn [flat_map]. rewrite IH. reflexivity.
-    - rewrite B. cbn. exact IH.
+    cbn [flat_map filter]. destruct Ht as [[_ A]|(A & B)].
+    - assert (P : pk t = true) by (unfold ExecUnk.pk; destruct (tk t); try contradiction; reflexivity).
+      rewrite P. cbn [flat_map]. rewrite IH. reflexivity.
+    - rewrite A, B. cbn. exact IH.
+  Qed.
+
+  (* C02 for the class: the text tokens of the document -- running text and
+     the text inside the arguments of pass-through macros, however deeply
+     nested -- leave the expander exactly as the scanner made them: same
+     character, same position, same order; nothing else of visible text
+     is in the output *)
+  Theorem exec_args_positions fuel toks st st' out :
+    isp c_nl = true ->
+    bcl (macros st) toks ->
+    exec T rd fuel (TSeq toks None []) st = Ok (st', ASeq out []) ->
+    filter (solid isp) out = texts toks.
+  Proof.
+    intros Hnl Hc H.
+    destruct (exec_args fuel toks [] st _ Hc H) as (st2 & ts & o & Er & Ep & _ & _ & _ & Et & Ef).
+    inversion Er; subst. cbn [rev app] in Ep. rewrite <- Et.
+    assert (Hcls : forall t, etok T t \/ (pk t = false /\ txt t = []) ->
+                   G isp t /\ solid isp t = tx t).
+    { intros t [[Hp Hk]|(A & B)].
+      - unfold tx, G, RpalProofs.E0, is_action, is_lang, solid.
+        destruct (tk t) eqn:Ek; try contradiction.
+        + destruct Hk as (c & Etx & Hsc & _). rewrite Etx.
+          assert (Hc' : isp c = false) by (rewrite <- Hsp; exact Hsc).
+          assert (Hn : has_nl [c] = false).
+          { unfold has_nl. cbn [existsb]. destruct (N.eqb c_nl c) eqn:E; [|reflexivity].
+            apply N.eqb_eq in E. subst c. congruence. }
+          rewrite Hn. unfold blank_str. cbn [forallb]. rewrite Hc'. cbn.
+          split; [split; [discriminate | intros [X|X]; discriminate] | reflexivity].
+        + destruct Hk as (c & r & Etx & _ & Hall).
+          assert (Hb : blank_str isp (txt t) = true).
+          { unfold blank_str. rewrite forallb_forall in *. intros a Ha. rewrite <- Hsp.
+            apply Hall, Ha. }
+          rewrite Hb. rewrite Bool.andb_false_r.
+          split; [split; [intros _; reflexivity | intros [X|X]; discriminate] | reflexivity].
+        + destruct Hk as (c & r & Etx & _ & Hall).
+          assert (Hb : blank_str isp (txt t) = true).
+          { unfold blank_str. rewrite forallb_forall in *. intros a Ha. rewrite <- Hsp.
+            apply Hall, Ha. }
+          rewrite Hb. rewrite Bool.andb_false_r.
+          split; [split; [intros _; reflexivity | intros [X|X]; discriminate] | reflexivity].
+      - split; [split; [rewrite B; discriminate | intros _; exact B]|].
+        rewrite (solid_nil isp t B). unfold tx. unfold ExecUnk.pk in A.
+        destruct (tk t); try reflexivity; discriminate. }
+    assert (HG : Forall (G isp) ts).
+    { eapply Forall_impl; [|exact Ef]. intros a Ha. apply Hcls. exact Ha. }
+    rewrite (rpal_keeps_solid isp ts o HG Ep).
+    unfold texts. clear - Ef Hcls. induction Ef as [|t l Ht Hl IH]; [reflexivity|].
+    cbn [filter]. rewrite (proj2 (Hcls t Ht)), IH. reflexivity.
   Qed.
 End ExecArgs.
